@@ -263,6 +263,18 @@ impl XFuncSpec {
         if !self.can_bind(&ret) {
             return None;
         }
+        // a caller's generic parameter that has the name of one of ours is still a type of its own: where it is
+        // supplied for our parameter, our parameter stands for it and for nothing else
+        for name in self.generic_params.iter().flatten() {
+            let supplied_namesake = args
+                .iter()
+                .zip(self.params.iter())
+                .any(|(arg, param)| param.type_.meets_namesake(arg, name));
+            if supplied_namesake {
+                let namesake = Arc::new(XType::XGeneric(*name));
+                ret = ret.mix(&Bind::from([(*name, namesake)]))?;
+            }
+        }
         Some(ret)
     }
 
@@ -372,6 +384,37 @@ impl XType {
                 }
                 _ => None,
             }
+        }
+    }
+
+    /// whether the generic parameter `name` occurs in self at a position where `other` has a generic
+    /// parameter of the same name (which `bind_in_assignment` takes for the same type and binds nothing for)
+    fn meets_namesake(&self, other: &Arc<Self>, name: &Identifier) -> bool {
+        fn any_meet(a: &[Arc<XType>], b: &[Arc<XType>], name: &Identifier) -> bool {
+            a.iter().zip(b.iter()).any(|(a, b)| a.meets_namesake(b, name))
+        }
+        match (self, other.as_ref()) {
+            (Self::XGeneric(a), Self::XGeneric(b)) => a == name && b == name,
+            (Self::Compound(_, a, bind_a), Self::Compound(_, b, bind_b)) => any_meet(
+                &a.generics_with_bind(bind_a),
+                &b.generics_with_bind(bind_b),
+                name,
+            ),
+            (Self::XNative(_, a), Self::XNative(_, b)) | (Self::Tuple(a), Self::Tuple(b)) => {
+                any_meet(a, b, name)
+            }
+            (Self::XCallable(a), Self::XCallable(b)) => {
+                any_meet(&a.param_types, &b.param_types, name)
+                    || a.return_type.meets_namesake(&b.return_type, name)
+            }
+            (Self::XCallable(a), Self::XFunc(b)) => {
+                a.param_types
+                    .iter()
+                    .zip(b.params.iter())
+                    .any(|(a, b)| a.meets_namesake(&b.type_, name))
+                    || a.return_type.meets_namesake(&b.ret, name)
+            }
+            _ => false,
         }
     }
 
